@@ -504,6 +504,11 @@ src = tatsu.to_python_sourcecode(g, name='U'); ns = {}; exec(compile(src, '<u>',
 out.append(repr(ns['UParser']().parse('x', start='_a_')))
 out.append(repr(ns['UParser']().parse('x', start='a')))
 out.append(tatsu.compile(g).pretty())
+try:
+    tatsu.compile("start = alpha beta gamma delta ;")
+    out.append('compiled')
+except Exception as e:
+    out.append(type(e).__name__ + ': ' + str(e))
 print(json.dumps(out))
 '''
 
@@ -519,7 +524,7 @@ def hashseed_part(rc):
     for seed in ('0', '1', '2', '3', '4', '5', '6', '7'):
         env = dict(os.environ, PYTHONHASHSEED=seed, PYTHONPATH=str(REPO))
         r = subprocess.run([sys.executable, '-c', HASHSEED_SCRIPT], env=env, capture_output=True, text=True, timeout=120)
-        rc.add('evaluations', 7)
+        rc.add('evaluations', 8)
         rc.add('states')
         if r.returncode != 0:
             rc.violation('hashseed/script-failed', seed=seed, error=r.stderr[-300:])
@@ -529,7 +534,7 @@ def hashseed_part(rc):
     for seed, o in outs.items():
         for i, (a, b) in enumerate(zip(base or [], o)):
             if a != b:
-                rc.violation(f'hashseed/result-depends-on-hash-seed/{["ast-key-order", "ast-repr", "ast-key-order", "ast-key-order", "start-rule", "start-rule", "pretty"][i]}',
+                rc.violation(f'hashseed/result-depends-on-hash-seed/{["ast-key-order", "ast-repr", "ast-key-order", "ast-key-order", "start-rule", "start-rule", "pretty", "error-message"][i]}',
                              seed=seed, with_seed_0=a, got=b)
     rc.coverage['hash_seeds_compared'] = len(outs)
 
